@@ -94,16 +94,31 @@ func runC17(ci interface{}) Result {
 		}
 	}
 	lateCreated := false
+	// a successor created once its predecessor has finished may come too late for
+	// the hand-over: it then comes in at once. In manual refresh the model knows
+	// which ones do; otherwise (frames not clocked by the program) any successor
+	// whose predecessor had finished by program order may be one.
+	mayBeLate := predFinishedAtAdd(sc)
+	if sim.OK {
+		mayBeLate = map[int]bool{}
+		for _, s := range sim.LateSucc {
+			mayBeLate[s] = true
+		}
+	}
 	for s, b := range sc.Bars {
 		p := b.QueueAfter
 		if p < 0 || !tr.Added[s] || !tr.Added[p] {
 			continue
 		}
+		// a predecessor that was moved to the top by pop-completed mode before the
+		// bar was created stays on screen: its rows persist, it is no longer a bar
+		// of the container
+		predPopped := sc.Cfg.Pop && !sc.Bars[p].NoPop && mayBeLate[s]
 		firstS, lastP := -1, -1
 		for k := range frames {
 			f := &frames[k]
 			hp, hs := f.Count(p) > 0, f.Count(s) > 0
-			if hp && hs {
+			if hp && hs && !predPopped {
 				r.Err, r.Kind = fmt.Errorf("frame %d shows bar %d together with its predecessor %d: %q", k, s, p, f.Raw), "together"
 				return r
 			}
@@ -119,10 +134,23 @@ func runC17(ci interface{}) Result {
 				r.Err, r.Kind = fmt.Errorf("bar %d is displayed (frame %d) before its predecessor %d was last displayed (frame %d)", s, firstS, p, lastP), "early"
 				return r
 			}
-			if firstS != lastP+1 && tr.PtyStream == nil {
+			if firstS != lastP+1 && tr.PtyStream == nil && !mayBeLate[s] {
 				// only frames that were written count; an empty frame writes nothing
 				r.Err, r.Kind = fmt.Errorf("bar %d first displayed in frame %d, predecessor %d last displayed in frame %d: not the following frame", s, firstS, p, lastP), "gap"
 				return r
+			}
+		}
+		if mayBeLate[s] && sim.OK && tr.CancelSeq == 0 {
+			// created after the hand-over: displayed from the first frame drawn after
+			// its creation
+			for k := range frames {
+				if frames[k].Seq > addSeq[s] && addSeq[s] > 0 {
+					if firstS != k && len(sim.Frames) == len(frames) && !sim.Frames[k].Ambiguous && containsInt(sim.Frames[k].Visible, s) {
+						r.Err, r.Kind = fmt.Errorf("bar %d was created after its predecessor %d had left; the first frame after its creation is frame %d, but it is first displayed in frame %d", s, p, k, firstS), "late-not-at-once"
+						return r
+					}
+					break
+				}
 			}
 		}
 		if firstS < 0 {
@@ -176,9 +204,22 @@ func runC17(ci interface{}) Result {
 			}
 		}
 	}
+	latePer := map[int]int{}
 	for _, s := range sim.LateSucc {
-		_ = s
 		lateCreated = true
+		latePer[sc.Bars[s].QueueAfter]++
+	}
+	if sim.OK && lateCreated {
+		r.Classes = append(r.Classes, "late-successor")
+		if len(sim.Replaced) > 0 {
+			r.Classes = append(r.Classes, "late-successor-replaces-displayed-predecessor")
+		}
+		for _, n := range latePer {
+			if n >= 2 {
+				r.Classes = append(r.Classes, "late-successors>=2-same-predecessor")
+				break
+			}
+		}
 	}
 	multi := false
 	for _, n := range nsucc {
@@ -204,6 +245,67 @@ func runC17(ci interface{}) Result {
 	return r
 }
 
+// predFinishedAtAdd: successors whose predecessor had reached a terminal state
+// when they were added (program order).
+func predFinishedAtAdd(sc *engine.Scenario) map[int]bool {
+	out := map[int]bool{}
+	ms := make([]*engine.MBar, len(sc.Bars))
+	for i := range sc.Steps {
+		st := &sc.Steps[i]
+		if st.Bar < 0 || st.Bar >= len(ms) || len(st.Par) > 0 {
+			continue
+		}
+		if st.Op == "add" {
+			if ms[st.Bar] == nil {
+				ms[st.Bar] = engine.NewMBar(sc.Bars[st.Bar].Total)
+				if a := sc.Bars[st.Bar].QueueAfter; a >= 0 && ms[a] != nil && ms[a].Terminal() {
+					out[st.Bar] = true
+				}
+			}
+			continue
+		}
+		if ms[st.Bar] != nil && !ms[st.Bar].Terminal() {
+			ms[st.Bar].Apply(st)
+		}
+	}
+	return out
+}
+
+// poppedDespiteSuccessor: finished bars that have successors and may all the
+// same have been moved to the top by pop-completed mode: every one of their
+// successors was created after they had finished (program order), so none may
+// have been waiting when the bar went through its hand-over frame. Whether it
+// was is a matter of frames the program does not clock (auto refresh).
+func poppedDespiteSuccessor(sc *engine.Scenario) map[int]bool {
+	out := map[int]bool{}
+	if !sc.Cfg.Pop {
+		return out
+	}
+	late := predFinishedAtAdd(sc)
+	added := map[int]bool{}
+	for _, st := range sc.Steps {
+		if st.Op == "add" {
+			added[st.Bar] = true
+		}
+	}
+	timely := map[int]bool{}
+	for j, b := range sc.Bars {
+		if b.QueueAfter >= 0 && b.QueueAfter < len(sc.Bars) && added[j] {
+			if late[j] {
+				out[b.QueueAfter] = true
+			} else {
+				timely[b.QueueAfter] = true
+			}
+		}
+	}
+	for i := range out {
+		if timely[i] || sc.Bars[i].NoPop {
+			delete(out, i)
+		}
+	}
+	return out
+}
+
 // succAfterFinish: some successor is added after its predecessor reached a
 // terminal state (generator-side model, program order).
 func succAfterFinish(sc *engine.Scenario) bool {
@@ -222,6 +324,15 @@ func succAfterFinish(sc *engine.Scenario) bool {
 		}
 		if ms[st.Bar] != nil && !ms[st.Bar].Terminal() {
 			ms[st.Bar].Apply(st)
+		}
+	}
+	return false
+}
+
+func containsInt(xs []int, x int) bool {
+	for _, y := range xs {
+		if y == x {
+			return true
 		}
 	}
 	return false
